@@ -429,6 +429,16 @@ def check_case(case):
                     judge(fails, seen, no, da, nm2, ds, cn, ca, "b built by route " + route)
                     evals += 2
                     nk += 2
+            if len(ds) == 2 and any(ds[0]) and any(ds[1]) and ds[0] != ds[1]:
+                # same number of rankings, same set of distinct rankings, different multiplicities (and equal ones)
+                r_, s_ = ds
+                trip = [[r_, r_, s_], [r_, s_, s_], [s_, r_, r_], [s_, s_, r_], [r_, s_, r_]]
+                tobjs = [(t, canon_multiset(t)[0], build(t, "trip")) for t in trip]
+                for ta, cta, oa in tobjs:
+                    for tb, ctb, ob in tobjs:
+                        judge(fails, seen, oa, ob, ta, tb, cta, ctb, "three rankings, multiplicities")
+                        evals += 1
+                        nk += 1
         return {"fails": fails, "key": None, "nkeys": nk, "evals": evals,
                 "sample": {"datasets": abst, "routes": routes}}
 
